@@ -60,7 +60,7 @@ def miri_extra(prop, argv_seeds, miri_seeds):
 
 META["C03"] = {
     "title": "Sources and single-input operators compute their documented sequence",
-    "rule": "cases = (operator chain AST, input script). Enumerated: every single-input operator x every parameter in 0..n+1 / predicate family x every script over {0,1,2} up to length n (quick 3, thorough 6) x terminal {none,complete,error} x sources {Subject, create (sync and stashed-handle), from_iter}; every basic source alone and under every operator; plus seeded random chains of depth 2..5 with post-terminal events. Long scripts (counter long_script_cases): chains of 1-2 operators with parameters up to 12 over scripts of up to 40 items from an alphabet of 12 values (operators that remember what they have seen or keep the last n items). A case is non-trivial when the reference model's expected output contains an item, or terminates although the input did not, or ends with an error; distinct = distinct hash of (AST, script).",
+    "rule": "cases = (operator chain AST, input script). Enumerated: every single-input operator x every parameter in 0..n+1 / predicate family x every script over {0,1,2} up to length n (quick 3, thorough 6) x terminal {none,complete,error} x sources {Subject, create (sync and stashed-handle), from_iter}; every basic source alone and under every operator; plus seeded random chains of depth 2..5 with post-terminal events. Long scripts (counter long_script_cases): chains of 1-2 operators with parameters up to 12 over scripts of up to 40 items from an alphabet of 12 values (operators that remember what they have seen or keep the last n items). One long chain in ten is pairwise + distinct / distinct_until_changed: the harness item type hashes a pair by its first component only (Hash coarser than Eq, which is legal), so comparing hashes instead of values is observable. Large parameters (counter large_parameter_cases): take / skip / take_last / skip_last / element_at / buffer_with_count with counts 1024..5000 over from_iter of 1024, 1025 and 3000 items. A case is non-trivial when the reference model's expected output contains an item, or terminates although the input did not, or ends with an error; distinct = distinct hash of (AST, script).",
     "assumptions": COMMON_ASSUME + [
         "reference list semantics are written from the doc comments in src/observable.rs; where they are silent (take(0) on an unterminated input) both behaviours are accepted",
         "buffer_with_count(0) and float `average` are exercised only in the typed static battery",
@@ -115,7 +115,7 @@ META["C02"] = {
 
 META["C05"] = {
     "title": "Flattening delivers every inner item once and honours the concurrency limit",
-    "rule": "cases = (spelling merge_all(n)|concat_all|flatten|flat_map|concat_map, local|_threads, table of k inner observables (quick k<=3, thorough k<=5) each cold-synchronous (create emitting its script, incl. empty and failing ones) or hot (Subject driven later), merged timeline of outer events, hot-inner events and completions). The outer is a hot Subject emitting the indices 0..k once each; all items carry unique ids; every inner is wrapped in a tracked spy that logs subscribe / terminal / unsubscribe. A deterministic battery builds the queued-then-started shapes (hot inner first, cold/hot inners queued behind the limit); the rest are seeded random interleavings biased towards early outer items. A third battery (mixed_cases_with_timed_inners) mixes cold, hot and TIMED inners (interval.take, timer) on the virtual clock under prompt/late schedules and fifo/any task order (and the real LocalPool) and is judged by invariants read off the tracked inners: output = what the inners produced, in that order, each once; live inners <= n; completion exactly when the outer and all inners completed. Non-trivial: at least one inner was started from the queue when another completed, or two inners were live at once; distinct = hash(case).",
+    "rule": "cases = (spelling merge_all(n)|concat_all|flatten|flat_map|concat_map, local|_threads, table of k inner observables (quick k<=3, thorough k<=5; a quarter of the cases up to k+3 so that three or more inners wait at once) each cold-synchronous (create emitting its script, incl. empty and failing ones) or hot (Subject driven later), merged timeline of outer events, hot-inner events and completions). The outer is a hot Subject emitting the indices 0..k once each; all items carry unique ids; every inner is wrapped in a tracked spy that logs subscribe / terminal / unsubscribe. A deterministic battery builds the queued-then-started shapes (hot inner first, cold/hot inners queued behind the limit); the rest are seeded random interleavings biased towards early outer items. A third battery (mixed_cases_with_timed_inners) mixes cold, hot and TIMED inners (interval.take, timer) on the virtual clock under prompt/late schedules and fifo/any task order (and the real LocalPool) and is judged by invariants read off the tracked inners: output = what the inners produced, in that order, each once; live inners <= n; completion exactly when the outer and all inners completed. Non-trivial: at least one inner was started from the queue when another completed, or two inners were live at once; distinct = hash(case).",
     "assumptions": COMMON_ASSUME + [
         "exact sequential reference model of merge_all(n) (running set, FIFO queue, completion iff outer done and nothing running or queued, first error wins); a hot inner loses events emitted while it is not subscribed",
         "single-threaded drive here; the two-thread interleavings of the _threads forms are explored by C10's baton scenarios",
@@ -143,7 +143,7 @@ META["C06"] = {
 
 META["C08"] = {
     "title": "Time and async sources emit exactly what and when they promise",
-    "rule": "cases = (source, take count, local|threads scheduler form, FIFO|any task order, due-stepping|late schedule, schedule seed). Sources: interval / interval_at with periods {1,7,100} ms and instants {past, now, +10ms, +250ms, +1h}; timer / timer_at with delays {0,1,7,100} ms and the same instants; from_future(_result) / from_stream(_result) over scripted futures/streams (ready at once, pending k polls self-woken or woken by the explorer, error at position i, empty). Due-stepping runs fire one due timer at a time and run tasks to quiescence (exact 'one period' oracle); late runs leave tasks waiting and jump the clock ('never earlier' oracle). A third of the timed cases (counter runs_with_idle_gap_before_first_poll) move the clock by {period/2, period-1ns, period, 3 periods+1ns, 3 ms} between subscribe() and the executor's first run, then due-step: the first interval / interval_at value is still due at max(subscription + period | the instant, first run). One stream case in six is long (20..100 items, all ready at once or with a rare pending; counter long_stream_runs). Non-trivial: >= 2 ticks observed, or the future/stream was pending at least once; distinct = hash(case). A share of the cases (counter runs_on_the_real_LocalPool) is built with the library's own `impl Scheduler for futures::executor::LocalSpawner` and run on the real futures LocalPool (run_until_stalled / try_run_one) instead of the harness executor. Thread part (scenario interval+workers): interval(1ms).take(k) with 1-2 worker threads running the periodic task and firing the virtual timers, optionally an unsubscribing thread (random/PCT, preemption-bounded systematic, free-running): values 0,1,2,... in order each once; without an unsubscribe exactly k values then completion once the workers ran until idle.",
+    "rule": "cases = (source, take count, local|threads scheduler form, FIFO|any task order, due-stepping|late schedule, schedule seed). Sources: interval / interval_at with periods {1,7,100} ms and instants {past, now, +10ms, +250ms, +1h}; timer / timer_at with delays {0,1,7,100} ms and the same instants; from_future(_result) / from_stream(_result) over scripted futures/streams (ready at once, pending k polls self-woken or woken by the explorer, error at position i, empty). Due-stepping runs fire one due timer at a time and run tasks to quiescence (exact 'one period' oracle); late runs leave tasks waiting and jump the clock ('never earlier' oracle). A third of the timed cases (counter runs_with_idle_gap_before_first_poll) move the clock by {period/2, period-1ns, period, 3 periods+1ns, 3 ms} between subscribe() and the executor's first run, then due-step: the first interval / interval_at value is still due at max(subscription + period | the instant, first run). One stream case in six is long (20..100 items, all ready at once or with a rare pending; counter long_stream_runs). A third of the timer cases use sub-millisecond delays (400, 900, 999, 1500 us). Non-trivial: >= 2 ticks observed, or the future/stream was pending at least once; distinct = hash(case). A share of the cases (counter runs_on_the_real_LocalPool) is built with the library's own `impl Scheduler for futures::executor::LocalSpawner` and run on the real futures LocalPool (run_until_stalled / try_run_one) instead of the harness executor. Thread part (scenario interval+workers): interval(1ms).take(k) with 1-2 worker threads running the periodic task and firing the virtual timers, optionally an unsubscribing thread (random/PCT, preemption-bounded systematic, free-running): values 0,1,2,... in order each once; without an unsubscribe exactly k values then completion once the workers ran until idle.",
     "assumptions": COMMON_ASSUME + [
         "the _at forms read the real Instant::now(): the instant is placed relative to the case's start and the real time the case took (plus 1 ms) is the tolerance on 'never earlier'; 'exactly' is only demanded of due-stepping runs on the virtual clock",
         "for an instant that has already passed ('at the given instant' cannot be met any more) the first interval_at value is due at once, i.e. at the executor's first run",
@@ -186,7 +186,7 @@ META["C09"] = {
 
 META["C15"] = {
     "title": "finalize runs its callback exactly once per subscription",
-    "rule": "cases = (0-2 upstream operators incl. early-terminating ones, hot Subject or stashed create() handle as source, finalize | finalize_threads directly above the probe, history of length <= 6 quick / <= 10 thorough over item / complete / error / unsubscribe (terminals repeated through cloned handles), plain unsubscribe or guard drop). Non-trivial: the history contains at least two terminating triggers (e.g. complete then unsubscribe); distinct = hash(case). first_trigger_* counters show which event ended the subscriptions. Exhaustively, every history of length <= 4 quick / <= 5 thorough over item / unsubscribe(k<3) / complete / error on THREE subscriptions made from clones of one finalize(..) / finalize_threads(..) value over one hot subject: after every step the number of callback runs equals the number of subscriptions that have ended (counter histories_over_cloned_finalize_values). A quarter of the random cases stack a second finalize directly above the one under test (both owe their callback at the same event); over create sources a third put take(1|2)/first BELOW finalize, where the event that ends finalize's own subscription is the terminal that reaches it from above (recorded by a transparent spy), not the subscriber's. The racing-thread part (terminating thread vs unsubscribing thread) runs under the baton scheduler (thread_* counters).",
+    "rule": "cases = (0-2 upstream operators incl. early-terminating ones, hot Subject or stashed create() handle as source, finalize | finalize_threads directly above the probe, history of length <= 6 quick / <= 10 thorough over item / complete / error / unsubscribe (terminals repeated through cloned handles), plain unsubscribe or guard drop). Non-trivial: the history contains at least two terminating triggers (e.g. complete then unsubscribe); distinct = hash(case). first_trigger_* counters show which event ended the subscriptions. Exhaustively, every history of length <= 4 quick / <= 5 thorough over item / unsubscribe(k<3) / complete / error on THREE subscriptions made from clones of one finalize(..) / finalize_threads(..) value over one hot subject: after every step the number of callback runs equals the number of subscriptions that have ended (counter histories_over_cloned_finalize_values). A quarter of the random cases stack a second finalize directly above the one under test (both owe their callback at the same event); over create sources a third put take(1|2)/first BELOW finalize, where the event that ends finalize's own subscription is the terminal that reaches it from above (recorded by a transparent spy), not the subscriber's. When a history unsubscribes a pipeline over a hot source, the finalize callback itself pushes one more item into that source (user code in the callback): nothing may reach the subscriber once the callback has run. Thread part also covers hot.finalize_threads(f) behind subscribe_on with the subscribing task on a worker thread and an unsubscribing thread: if the inner subscription was made (seen by a spy above finalize) and the handle was unsubscribed, the callback ran exactly once. The racing-thread part (terminating thread vs unsubscribing thread) runs under the baton scheduler (thread_* counters).",
     "assumptions": COMMON_ASSUME + [
         "finalize is placed last, so 'the subscription is completed / failed' is exactly 'the probe saw the terminal'",
         "'right after' = before the next step of the history begins, and for an unsubscription before unsubscribe() returns",
@@ -200,7 +200,7 @@ META["C15"] = {
 
 META["C20"] = {
     "title": "group_by sends every item to exactly one group, in order",
-    "rule": "cases = (key function in {constant, identity, mod 2, mod 3}, script, group subject type Subject|SubjectThreads, hot Subject or cold create source). Enumerated: every script over {0,1,2,3} up to length 5 quick / 7 thorough x terminal {none, complete, error}; plus seeded random scripts up to length 8/12 with post-terminal events. A probe is attached to each group inside the outer observer's next (as the group is announced). Hot cases are additionally flattened back through group_by+flat_map and compared with the source. group_by takes an FnMut: every enumerated script also runs with stateful discriminators (key of the i-th item handed over = i/n for n in 1..3, whatever the item; counter cases_with_a_stateful_discriminator), as does a fifth of the random scripts. A third of the random scripts and half of the stateful enumerated ones use a key type whose Hash is coarser than its Eq (all even keys collide, all odd keys collide; counter cases_with_colliding_key_hashes); a third attach a second subscriber to every group ahead of the probe and unsubscribe it at once (counter cases_with_a_closed_subscriber_ahead_in_each_group). Non-trivial: at least two groups and one group with at least two items; distinct = hash(case).",
+    "rule": "cases = (key function in {constant, identity, mod 2, mod 3}, script, group subject type Subject|SubjectThreads, hot Subject or cold create source). Enumerated: every script over {0,1,2,3} up to length 5 quick / 7 thorough x terminal {none, complete, error}; plus seeded random scripts up to length 8/12 with post-terminal events. A probe is attached to each group inside the outer observer's next (as the group is announced). Hot cases are additionally flattened back through group_by+flat_map and compared with the source. group_by takes an FnMut: every enumerated script also runs with stateful discriminators (key of the i-th item handed over = i/n for n in 1..3, whatever the item; counter cases_with_a_stateful_discriminator), as does a fifth of the random scripts. A third of the random scripts and half of the stateful enumerated ones use a key type whose Hash is coarser than its Eq (all even keys collide, all odd keys collide; counter cases_with_colliding_key_hashes); a third attach a second subscriber to every group ahead of the probe and unsubscribe it at once (counter cases_with_a_closed_subscriber_ahead_in_each_group). A quarter of the hot plain-key cases subscribe each group only after 0-2 further source events (counter cases_with_groups_subscribed_late): the group is owed the later items of its key and the terminal. In a quarter of the cases the observer of the stream of groups reports finished as soon as any group subscriber has received a terminal (a flattening consumer): every group must still get the terminal. Non-trivial: at least two groups and one group with at least two items; distinct = hash(case).",
     "assumptions": COMMON_ASSUME + [
         "the relative order of the groups' terminals and the outer terminal is not part of the property and not checked",
         "'the key of an item' is what the discriminator returns when it is applied once to every source item in source order (it is an FnMut in the API); the pure functions of the stated family cannot tell, the stateful ones can",
@@ -272,7 +272,7 @@ META["C11"] = {
 
 META["C13"] = {
     "title": "Cold pipelines are lazy and every subscription is independent",
-    "rule": "cases = (cold chain built with the CLONEABLE builder: source in from_iter / counting iterator / of / of_fn / start / defer(nested chain) / create(sync script) / repeat / empty / throw / of_result / of_option / interval.take(k) / scripted from_stream / from_future_result on the virtual clock; 0..n operators (quick n=3, thorough n=5) drawn from the stateful catalogue (scan, last, default_if_empty, distinct*, skip*, take*, pairwise, buffer*, collect, start_with, reduce, count, delay, debounce, throttle(_time) all edges, buffer_with_time, buffer_with_count_and_time, observe_on, delay_subscription, subscribe_on, two-input operators over cold sub-chains), optionally finalize last; 2-3 clones subscribed successively | overlapping (next clone joins while the previous still runs) | nested (next clone subscribed from inside the previous one's first item callback)). Checked: no log event, spawned task or timer before the first subscription; source closures called once per subscription; every subscription's (virtual-time-relative) trace equals the first one's; finalize runs once per ended subscription. In a quarter of the cases every subscription is explicitly unsubscribed once it has run dry, before the next clone is subscribed (giving up one subscription must not reach into another clone's). FIFO scheduler model (equal deadlines in creation order) so that identical subscriptions behave identically. Non-trivial: at least two subscriptions of a chain with at least one stateful operator; distinct = hash(case).",
+    "rule": "cases = (cold chain built with the CLONEABLE builder: source in from_iter / counting iterator / of / of_fn / start / defer(nested chain) / create(sync script) / repeat / empty / throw / of_result / of_option / interval.take(k) / scripted from_stream / from_future_result on the virtual clock; 0..n operators (quick n=3, thorough n=5) drawn from the stateful catalogue (scan, last, default_if_empty, distinct*, skip*, take*, pairwise, buffer*, collect, start_with, reduce, count, delay, debounce, throttle(_time) all edges, buffer_with_time, buffer_with_count_and_time, observe_on, delay_subscription, subscribe_on, two-input operators over cold sub-chains), optionally finalize last; 2-3 clones subscribed successively | overlapping (next clone joins while the previous still runs) | nested (next clone subscribed from inside the previous one's first item callback)). Checked: no log event, spawned task or timer before the first subscription; source closures called once per subscription; every subscription's (virtual-time-relative) trace equals the first one's; finalize runs once per ended subscription. In a quarter of the cases every subscription is explicitly unsubscribed once it has run dry, before the next clone is subscribed (giving up one subscription must not reach into another clone's). The combine_latest combinator used by the builder is stateful (it numbers its own calls): after each successive subscription began its first call must carry number 1. FIFO scheduler model (equal deadlines in creation order) so that identical subscriptions behave identically. Non-trivial: at least two subscriptions of a chain with at least one stateful operator; distinct = hash(case).",
     "assumptions": COMMON_ASSUME + [
         "timer, share and the flattening operators are not Clone-able (TimerObservable / MergeAllOp are not Clone; share is shared by design) and are not part of this check",
     ],
@@ -330,7 +330,7 @@ META["C10"] = {
 
 META["C12"] = {
     "title": "BehaviorSubject hands every new subscriber the current value first",
-    "rule": "sequential part: random histories of length <= 10 quick / <= 24 thorough over next / next_by / clone / subscribe / unsubscribe / peek / complete / error on BehaviorSubject over Subject and over SubjectThreads, <= 3 subscribers, compared step by step with a model (first item of a new subscriber = most recent value passed to any clone, peek() = that value, next_by(f) emits f(that value), every later item exactly once); non-trivial: a subscriber joined after at least one next. Thread part: 2-3 producer threads and late subscribers on BehaviorSubject<_, SubjectThreads> under the baton scheduler: at quiescence peek() must equal the last item of the order observed by the always-present subscriber, a late subscriber's sequence must be [v] followed by the suffix of that order that follows v, and the always-present subscriber must have received every item whose next() returned exactly once (no terminal or unsubscribe is scripted); every other item is emitted through next_by(|_| item); the same producers also run free on OS threads with seeded jitter at the lock points. distinct = hash(history) / hash(scenario, schedule).",
+    "rule": "sequential part: random histories of length <= 10 quick / <= 24 thorough over next / next_by / clone / subscribe / unsubscribe / peek / complete / error on BehaviorSubject over Subject and over SubjectThreads, <= 3 subscribers, compared step by step with a model (next_by also with a function that itself subscribes a new subscriber before returning: the newcomer gets the value current at that moment, then f's result) (first item of a new subscriber = most recent value passed to any clone, peek() = that value, next_by(f) emits f(that value), every later item exactly once); non-trivial: a subscriber joined after at least one next. Thread part: 2-3 producer threads and late subscribers on BehaviorSubject<_, SubjectThreads> under the baton scheduler: at quiescence peek() must equal the last item of the order observed by the always-present subscriber, a late subscriber's sequence must be [v] followed by the suffix of that order that follows v, and the always-present subscriber must have received every item whose next() returned exactly once (no terminal or unsubscribe is scripted); every other item is emitted through next_by(|_| item); the same producers also run free on OS threads with seeded jitter at the lock points. distinct = hash(history) / hash(scenario, schedule).",
     "assumptions": COMMON_ASSUME + [
         "after a terminal, a new subscriber may receive the stored value alone or followed by nothing else; the stored value follows the statement (most recent value passed to any clone)",
     ],
